@@ -11,7 +11,7 @@ import common
 
 OPS = {
     "render": {"res": True}, "highlight": {"res": True}, "tbframe": {},
-    "show_Z": {}, "expandtabs": {}, "wrap_fit": {},
+    "show_Z": {}, "expandtabs": {}, "wrap_fit": {}, "wrapf_text": {},
 }
 
 LEXERS = ["python", "json", "html", "text", "nosuchlexer-c17"]
@@ -130,8 +130,7 @@ def render_case(rng):
     rg = rrange(rng, n)
     lo = start + (max(0, rg[0] - 1) if rg else 0)
     hl = sorted(set(rng.randint(lo - 1, lo + n + 1) for _ in range(rng.choice([0, 0, 1, 2, 4]))))
-    # the word-wrap model knows the ASCII space only (Text.wrap's \\s is C02's business): no wrapping there
-    ww = 1 if (rng.random() < 0.3 and not ws) else 0
+    ww = 1 if rng.random() < 0.3 else 0
     tab = rng.choice([4, 4, 4, 8, 2, 1, 3])
     guides = 1 if rng.random() < (0.8 if ws else 0.25) else 0
     transparent = rng.randrange(2)
@@ -268,7 +267,12 @@ def generate(rng, tier):
         line = rng.choice(TEXT_LINES + PY_LINES + [f for f in FILLER if '\n' not in f]).expandtabs(4)
         if rng.random() < 0.3:
             line = " ".join(rng.choice(["a", "bb", "中文", "long" * 6, "", "x" * 9]) for _ in range(rng.randint(0, 8)))
-        cases.append(("wrap_fit", [s2t(line), rng.choice([2, 3, 4, 5, 8, 9, 10, 20, 40]), rng.randrange(2)]))
+        wa = [s2t(line), rng.choice([2, 3, 4, 5, 8, 9, 10, 20, 40]), rng.randrange(2)]
+        cases.append(("wrap_fit", wa))          # this layer's own small model of the wrap path (ASCII space only)
+        cases.append(("wrapf_text", wa))        # C02's Text.wrap model through the adapter the theorems use
+    for _ in range(100 * k):                    # ... which also knows the other whitespace characters
+        line = rng.choice(WS_LINES + ["a\u00a0b c\u3000\u3000d  e", "\u2003x y\u00a0", "中\u3000文 字\u3000"]) + rng.choice(["", " tail words here", "\u3000" * 3])
+        cases.append(("wrapf_text", [s2t(line), rng.choice([2, 3, 4, 5, 8, 12, 30]), rng.randrange(2)]))
     return cases
 
 
@@ -307,7 +311,7 @@ def impl(op, arg):
         return s2t(str(arg))
     if op == "expandtabs":
         return s2t(t2s(arg[1]).expandtabs(arg[0]))
-    if op == "wrap_fit":
+    if op in ("wrap_fit", "wrapf_text"):
         # Text.wrap as Syntax uses it for one line: render_lines on a console of that width
         from rich.text import Text
         from rich.style import Style
@@ -405,7 +409,7 @@ def spec_cases(op, arg, out):
     if op == "tbframe":
         return [("spec.failing_line", [arg[0], arg[2], arg[7], arg[6], out[1] if isinstance(out[1], list) else []]),
                 ("spec.frame_lineno", [arg[2], out[0]])]
-    if op == "wrap_fit":
+    if op in ("wrap_fit", "wrapf_text"):
         return [("spec.wrap_ok", [arg[0], arg[1], out])]
     return []
 
